@@ -292,6 +292,12 @@ class ClientGenerator:
                 temp_generated_files += mock_files
                 self._log_progress(f"Generated {len(mock_files)} mock files (temp)", "EMIT_MOCKS_TEMP")
 
+                # Same rich client __init__.py as direct generation writes for an external core
+                if core_package:
+                    tmp_client_init_py_path = tmp_out_dir_for_diff / "__init__.py"
+                    self._write_client_package_init(tmp_client_init_py_path, resolved_core_package_fqn)
+                    temp_generated_files.append(tmp_client_init_py_path)
+
                 # Post-processing should run on the temporary files if enabled
                 if not no_postprocess:
                     self._log_progress("Running post-processing on temporary files", "POSTPROCESS_TEMP")
@@ -462,60 +468,8 @@ class ClientGenerator:
             # create a rich __init__.py in the client's output_package (out_dir).
             if core_package:  # core_package is the user-provided original arg
                 client_init_py_path = out_dir / "__init__.py"
-                self._log_progress(
-                    f"Generating rich __init__.py for client package at {client_init_py_path}", "CLIENT_INIT"
-                )
-
-                # Core components to re-export.
-                # resolved_core_package_fqn is the correct fully qualified name to use for imports.
-                core_imports = [
-                    f"from {resolved_core_package_fqn}.auth import BaseAuth, ApiKeyAuth, BearerAuth, OAuth2Auth",
-                    f"from {resolved_core_package_fqn}.config import ClientConfig",
-                    f"from {resolved_core_package_fqn}.exceptions import HTTPError, ClientError, ServerError",
-                    f"from {resolved_core_package_fqn}.exception_aliases import *  # noqa: F401, F403",
-                    f"from {resolved_core_package_fqn}.http_transport import HttpTransport, HttpxTransport",
-                    f"from {resolved_core_package_fqn}.cattrs_converter import structure_from_dict, unstructure_to_dict, converter",
-                ]
-
-                client_imports = [
-                    "from .client import APIClient",
-                ]
-
-                all_list = [
-                    '"APIClient",',
-                    '"BaseAuth", "ApiKeyAuth", "BearerAuth", "OAuth2Auth",',
-                    '"ClientConfig",',
-                    '"HTTPError", "ClientError", "ServerError",',
-                    # Names from exception_aliases are available via star import
-                    '"HttpTransport", "HttpxTransport",',
-                    '"structure_from_dict", "unstructure_to_dict", "converter",',
-                ]
-
-                init_content_lines = [
-                    "# Client package __init__.py",
-                    "# Re-exports from core and local client.",
-                    "",
-                ]
-                init_content_lines.extend(core_imports)
-                init_content_lines.extend(client_imports)
-                init_content_lines.append("")
-                init_content_lines.append("__all__ = [")
-                for item in all_list:
-                    init_content_lines.append(f"    {item}")
-                init_content_lines.append("]")
-                init_content_lines.append("")  # Trailing newline
-
-                # Use FileManager from the main_render_context if available, or create one.
-                # For simplicity here, just write directly.
-                try:
-                    with open(client_init_py_path, "w") as f:
-                        f.write("\\n".join(init_content_lines))
-                    generated_files.append(client_init_py_path)  # Track this generated file
-                    self._log_progress(f"Successfully wrote rich __init__.py to {client_init_py_path}", "CLIENT_INIT")
-                except IOError as e:
-                    self._log_progress(f"ERROR: Failed to write client __init__.py: {e}", "CLIENT_INIT")
-                    # Optionally re-raise or handle as a generation failure
-                    raise GenerationError(f"Failed to write client __init__.py: {e}") from e
+                self._write_client_package_init(client_init_py_path, resolved_core_package_fqn)
+                generated_files.append(client_init_py_path)  # Track this generated file
 
             # Post-processing applies to all generated files
             if not no_postprocess:
@@ -540,6 +494,62 @@ class ClientGenerator:
                     self._log_progress(f"{stage}: {duration:.2f}s", None)
 
         return generated_files
+
+    def _write_client_package_init(self, client_init_py_path: Path, resolved_core_package_fqn: str) -> None:
+        """Write the client package __init__.py that re-exports the external core (both generation modes)."""
+        self._log_progress(
+            f"Generating rich __init__.py for client package at {client_init_py_path}", "CLIENT_INIT"
+        )
+
+        # Core components to re-export.
+        # resolved_core_package_fqn is the correct fully qualified name to use for imports.
+        core_imports = [
+            f"from {resolved_core_package_fqn}.auth import BaseAuth, ApiKeyAuth, BearerAuth, OAuth2Auth",
+            f"from {resolved_core_package_fqn}.config import ClientConfig",
+            f"from {resolved_core_package_fqn}.exceptions import HTTPError, ClientError, ServerError",
+            f"from {resolved_core_package_fqn}.exception_aliases import *  # noqa: F401, F403",
+            f"from {resolved_core_package_fqn}.http_transport import HttpTransport, HttpxTransport",
+            f"from {resolved_core_package_fqn}.cattrs_converter import structure_from_dict, unstructure_to_dict, converter",
+        ]
+
+        client_imports = [
+            "from .client import APIClient",
+        ]
+
+        all_list = [
+            '"APIClient",',
+            '"BaseAuth", "ApiKeyAuth", "BearerAuth", "OAuth2Auth",',
+            '"ClientConfig",',
+            '"HTTPError", "ClientError", "ServerError",',
+            # Names from exception_aliases are available via star import
+            '"HttpTransport", "HttpxTransport",',
+            '"structure_from_dict", "unstructure_to_dict", "converter",',
+        ]
+
+        init_content_lines = [
+            "# Client package __init__.py",
+            "# Re-exports from core and local client.",
+            "",
+        ]
+        init_content_lines.extend(core_imports)
+        init_content_lines.extend(client_imports)
+        init_content_lines.append("")
+        init_content_lines.append("__all__ = [")
+        for item in all_list:
+            init_content_lines.append(f"    {item}")
+        init_content_lines.append("]")
+        init_content_lines.append("")  # Trailing newline
+
+        # Use FileManager from the main_render_context if available, or create one.
+        # For simplicity here, just write directly.
+        try:
+            with open(client_init_py_path, "w") as f:
+                f.write("\\n".join(init_content_lines))
+            self._log_progress(f"Successfully wrote rich __init__.py to {client_init_py_path}", "CLIENT_INIT")
+        except IOError as e:
+            self._log_progress(f"ERROR: Failed to write client __init__.py: {e}", "CLIENT_INIT")
+            # Optionally re-raise or handle as a generation failure
+            raise GenerationError(f"Failed to write client __init__.py: {e}") from e
 
     def _load_spec(self, path_or_url: str) -> dict[str, Any]:
         """
